@@ -255,7 +255,8 @@ def task_ref(chunk):
 
 
 # ------------------------------------------------------------------ half 3: the OPEN the application is told about
-SESSION_CFGS = [{}, {'four_bytes_as': False}, {'four_bytes_as': False, 'route_refresh': False, 'cisco_route_refresh': False}]
+SESSION_CFGS = [{}, {'four_bytes_as': False}, {'four_bytes_as': False, 'route_refresh': False, 'cisco_route_refresh': False},
+                {'local_as': 4200000000}, {'local_as': 65536, 'four_bytes_as': False}, {'local_as': 65535}]
 
 
 def session_cases(tier):
@@ -292,9 +293,20 @@ def task_session(chunk):
             want_caps['four_bytes_as'] = True
         body = wire.open_body(asn if asn <= 65535 else 23456, 90, 0x0A000002, wire.opt_params(enc, pk))
         cfg = dict(SESSION_CFGS[ci], remote_as=asn)
-        w = W.replay(cfg, [('TICK', 0), ('CONN_OK', 0)], {})
-        got = []
+        w = W.AgentWorld(cfg)
+        got, sent = [], []
         w.handler.open_received = lambda peer, ts, m: got.append(copy.deepcopy(m))
+        w.handler.send_open = lambda peer, ts, m: sent.append(copy.deepcopy(m))
+        w.step(('TICK', 0))
+        w.step(('CONN_OK', 0))
+        # what the agent reports about its own OPEN is what it wrote (true AS number, not AS_TRANS)
+        if len(sent) == 1:
+            la = cfg.get('local_as', 65001)
+            if sent[0].get('asn') != la or sent[0].get('hold_time') != 180 or sent[0].get('bgp_id') != '10.0.0.1':
+                v.append(('C14|open-session|cfg%d|the OPEN reported to handler.send_open differs from the OPEN written' % ci,
+                          {'cfg': cfg, 'reported': {k: sent[0].get(k) for k in ('asn', 'hold_time', 'bgp_id')}, 'written': {'asn': la, 'hold_time': 180, 'bgp_id': '10.0.0.1'}}))
+        else:
+            v.append(('C14|open-session|cfg%d|handler.send_open called %d times for one OPEN' % (ci, len(sent)), {'cfg': cfg}))
         w.step(('RX', 0, wire.frame(wire.OPEN, body)))
         labels = tuple(items[i][0] for i in combo)
         cls = ('cfg%d' % ci, pk, 'as4' if asn > 65535 else 'as2', len(combo))
@@ -312,6 +324,25 @@ def task_session(chunk):
                 d = ['capabilities.' + k for k in sorted(set(gc) | set(wc)) if gc.get(k) != wc.get(k)]
             v.append(('C14|open-session|cfg%d|the OPEN handed to the application differs from the OPEN received: %s' % (ci, ','.join(d)),
                       {'caps': labels, 'packaging': pk, 'cfg': cfg, 'hex': body.hex(), 'got': got[0], 'want': want}))
+            continue
+        # a second OPEN on the same connection (OpenConfirm): whatever the FSM does with it, nothing of it may be merged into what
+        # was decoded from the first - neither in a second report nor in the remote capabilities the agent keeps
+        from oslo_config import cfg as ocfg
+        before = norm(copy.deepcopy(ocfg.CONF.bgp.running_config['capability']['remote']))
+        second = wire.open_body(asn if asn <= 65535 else 23456, 90, 0x0A000002,
+                                wire.opt_params([wire.cap_mp(2, 1), wire.cap(73, b'\x01\x02'), wire.cap_addpath([(2, 1, 1)])] + ([wire.cap_as4(asn)] if asn > 65535 else []), pk))
+        w.step(('RX', 0, wire.frame(wire.OPEN, second)))
+        if w.reported_state() == 'OPENCONFIRM':
+            after = norm(copy.deepcopy(ocfg.CONF.bgp.running_config['capability']['remote']))
+            alone = {'afi_safi': [(2, 1)], '73': repr(b'\x01\x02'), 'add_path': [{'afi_safi': 'ipv6', 'send/receive': 'receive'}]}
+            if asn > 65535:
+                alone['four_bytes_as'] = True
+            if after != before and after != norm(alone):
+                v.append(('C14|open-session|cfg%d|a second OPEN in OpenConfirm is merged into the capabilities decoded from the first' % ci,
+                          {'caps': labels, 'cfg': cfg, 'before': before, 'after': after}))
+            if len(got) == 2 and norm(got[1].get('capabilities')) != norm(alone):
+                v.append(('C14|open-session|cfg%d|the second OPEN is reported with capabilities it did not carry' % ci,
+                          {'caps': labels, 'cfg': cfg, 'reported': got[1].get('capabilities'), 'carried': alone}))
     _tag(v, mark, 'session', prev)
     return len(chunk), v, classes
 
